@@ -1323,11 +1323,14 @@ class _CompiledImporter:
         elif isinstance(cell_value, str) and cell_value.startswith('='):
             return ExcelOpxWrapper.RangeData(address, cell_value, None)
 
-        elif isinstance(cell_value, float) and type(cell_value) is not float:
-            # the yaml loader returns a float subclass (ScalarFloat): as a cell
-            # value it must be the plain float that was saved, e.g. sum()
-            # compensates rounding only for exact floats
-            return ExcelOpxWrapper.RangeData(address, '', float(cell_value))
+        elif isinstance(cell_value, (int, float)) and type(cell_value) not in (
+                int, float, bool):
+            # the yaml loader returns number subclasses (ScalarFloat, and
+            # ScalarInt for 0): as a cell value it must be the plain number
+            # that was saved, e.g. sum() compensates rounding only while
+            # every item is an exact float or int
+            number = float if isinstance(cell_value, float) else int
+            return ExcelOpxWrapper.RangeData(address, '', number(cell_value))
 
         else:
             return ExcelOpxWrapper.RangeData(address, '', cell_value)
